@@ -20,7 +20,7 @@ class WireCore(object):
     """cfg keys:
     flavour    "raises" (TcpTimeoutException when nothing arrives, like real TCP) | "empty" (returns b'')
     frag       list  read-fragment tape: 0 = as much as requested/available, v = at most v bytes, EMPTY_READ = b''
-    wcap       list  per-write-call capacity, cyclic; 0 = unlimited
+    wcap       list  per-write-call capacity, cyclic; 0 = unlimited, -1 = accepts nothing (returns 0)
     ret_none   bool  bulk_write returns None (as the suite's fake does) instead of the count
     faults     dict  {call index: kind}   kinds: r_timeout r_reset eof r_short_raise w_pipe w_partial_raise c_refuse
     stall      dict  {"at": k device packets delivered, "kind": silence|eof|trickle|foreign, "delta": s}
@@ -150,12 +150,13 @@ class WireCore(object):
         if self.wcap:
             cap = self.wcap[self.wcap_i % len(self.wcap)]
             self.wcap_i += 1
-        n = len(data) if not cap else min(len(data), int(cap))
+        # cap: 0 = unlimited, k > 0 = at most k bytes, -1 = nothing accepted this time (the call reports 0: "busy, call again")
+        n = len(data) if not cap else (0 if cap < 0 else min(len(data), int(cap)))
         if n < len(data):
             self.short_writes += 1
         self.sim.feed(bytes(data[:n]))
         self.bytes_written += n
-        self.clock.advance(1e-6)
+        self.clock.advance(self.cfg.get("wdelay") or 1e-6)       # a slow link: every write call takes `wdelay` seconds
         self._log("w", len(data), timeout, n)
         if self.cfg.get("ret_none") and n == len(data):
             return None
